@@ -62,11 +62,32 @@ func coqNum(f float64) string {
 	return fmt.Sprintf("(NFin %s %d %s)", lib.CoqBool(neg), m, lib.CoqZ(e))
 }
 
-func coqArg(a fmtArg) string {
+// coqArg prints an argument. A string given to a numeric conversion is printed as
+// AConv s (tonumber s): the string -> number conversion is C16's subject and is taken from the real
+// tonumber here.
+func coqArg(a fmtArg, numericVerb bool) string {
 	if a.K == "num" {
 		return "(ANum " + coqNum(a.float()) + ")"
 	}
-	return "(AStr " + lib.CoqBytes(unhex(a.S)) + ")"
+	if !numericVerb {
+		return "(AStr " + lib.CoqBytes(unhex(a.S)) + ")"
+	}
+	conv := "None"
+	if n, ok := realToNumber(unhex(a.S)); ok {
+		conv = "(Some " + coqNum(n) + ")"
+	}
+	return "(AConv " + lib.CoqBytes(unhex(a.S)) + " " + conv + ")"
+}
+
+func realToNumber(s []byte) (float64, bool) {
+	L := state()
+	top := L.GetTop()
+	defer L.SetTop(top)
+	if err := L.CallByParam(lua.P{Fn: L.GetGlobal("tonumber"), NRet: 1, Protect: true}, lua.LString(string(s))); err != nil {
+		return 0, false
+	}
+	n, ok := L.Get(-1).(lua.LNumber)
+	return float64(n), ok
 }
 
 // dirSpec mirrors FormatModel.dspec for the known-finding matchers and the non-triviality rule.
@@ -139,7 +160,7 @@ func supported(d dirSpec, a fmtArg) bool {
 		return false
 	}
 	if a.K == "str" {
-		return d.verb == 's'
+		return true // %s takes it as it is, a numeric conversion converts it or raises
 	}
 	if d.verb == 's' {
 		f := a.float()
@@ -148,34 +169,9 @@ func supported(d dirSpec, a fmtArg) bool {
 	return true
 }
 
-// kfTags: the matchers of the open findings, evaluated on the input alone.
-func kfTags(ds []dirSpec, args []fmtArg) []string {
-	set := map[string]bool{}
-	for i, d := range ds {
-		if i >= len(args) || args[i].K != "num" {
-			continue
-		}
-		f := args[i].float()
-		special := math.IsNaN(f) || math.IsInf(f, 0)
-		isZero := !special && math.Abs(f) < 9.2e18 && int64(f) == 0
-		switch d.verb {
-		case 'x', 'X':
-			if d.sharp && (isZero || (d.zero && !d.minus && d.prec < 0)) {
-				set["C15-8"] = true
-			}
-		case 'e', 'E', 'f':
-			if special {
-				set["C15-11"] = true
-			}
-		}
-		if d.prec == 0 && isZero {
-			if ((d.verb == 'd' || d.verb == 'i') && (d.plus || d.space)) || (d.verb == 'o' && d.sharp) {
-				set["C15-12"] = true
-			}
-		}
-	}
-	return lib.SortedKeys(set)
-}
+// kfTags: the matchers of the open findings, evaluated on the input alone. C15-8, C15-11 and C15-12
+// are repaired in the code; nothing is open for string.format.
+func kfTags(ds []dirSpec, args []fmtArg) []string { return nil }
 
 func fmtNontrivial(ds []dirSpec, args []fmtArg) bool {
 	for i, d := range ds {
@@ -226,7 +222,7 @@ func runFormat(w *lib.Writer, c fmtIn) {
 		} else {
 			largs = append(largs, lua.LString(string(unhex(a.S))))
 		}
-		cargs[i] = coqArg(a)
+		cargs[i] = coqArg(a, i < len(ds) && ds[i].verb != 's')
 	}
 	res, errs := call("format", largs...)
 	class := "format:multi"
@@ -305,6 +301,9 @@ var floatPool = []float64{0, math.Copysign(0, -1), 1, -1, 0.5, 1.5, 2.5, 3.5, 0.
 	1e100, 1e-100, 999999.5, 9.5, 0.95, 0.05, 0.25, 0.125, 0.375, 99.5, 9.999999999999999e22, 1e23, 1 << 53,
 	1<<53 + 2, 4.35, 0.045, 1e-7, 123456789012345678, -2.5, -0.1, 6.02214076e23, 1.7976931348623157e308 / 3}
 
+// strings given to numeric conversions: convertible spellings and near misses
+var numStrPool = []string{"42", "-7", " 10 ", "0x10", "1e2", "3.75", "-0.5", "0010", ".5", "abc", "", "12abc", "1e", "0x", "-"}
+
 func strPool() [][]byte {
 	all := make([]byte, 256)
 	for i := range all {
@@ -357,6 +356,9 @@ func argsFor(verb byte, r *lib.Rand, nrand int) []fmtArg {
 		for i := 0; i < nrand; i++ {
 			out = append(out, numArg(randInt(r)))
 		}
+		for _, t := range numStrPool {
+			out = append(out, strArg([]byte(t)))
+		}
 	case 'c':
 		for _, v := range []float64{0, 10, 37, 65, 127, 128, 200, 255, 256, 321, -1, 65.9} {
 			out = append(out, numArg(v))
@@ -369,6 +371,9 @@ func argsFor(verb byte, r *lib.Rand, nrand int) []fmtArg {
 			out = append(out, numArg(v))
 		}
 		out = append(out, numArg(math.Inf(1)), numArg(math.Inf(-1)), numArg(math.NaN()))
+		for _, t := range numStrPool {
+			out = append(out, strArg([]byte(t)))
+		}
 		for i := 0; i < nrand; i++ {
 			out = append(out, numArg(randFloat(r)))
 		}
@@ -392,16 +397,23 @@ func fmtCorpus(w *lib.Writer) {
 		{F: h("%c"), Args: []fmtArg{n(200)}},                            // C15-6 (fixed)
 		{F: h("%5c|%-5c|"), Args: []fmtArg{n(255), n(0)}},               //
 		{F: h("%x %o %X"), Args: []fmtArg{n(-1), n(-8), n(-255)}},       // C15-7 (fixed)
-		{F: h("%#x"), Args: []fmtArg{n(0)}},                             // C15-8 (open)
-		{F: h("%#05x"), Args: []fmtArg{n(10)}},                          // C15-8 (open)
+		{F: h("%#x"), Args: []fmtArg{n(0)}},                             // C15-8 (fixed)
+		{F: h("%#05x"), Args: []fmtArg{n(10)}},                          // C15-8 (fixed)
 		{F: h("%#x %#o %#X"), Args: []fmtArg{n(255), n(8), n(255)}},     //
 		{F: h("%d")},                                                    // C15-9 (fixed): must raise
 		{F: h("%d %d"), Args: []fmtArg{n(1)}},                           //
 		{F: h("%%%d"), Args: []fmtArg{n(1), n(2)}},                      // item count (fixed): surplus argument ignored
 		{F: h("100%%"), Args: []fmtArg{n(5)}},                           //
 		{F: h("%5s|%-5s|%.2s|"), Args: []fmtArg{strArg([]byte("\xc3\xa9")), strArg([]byte("\xc3\xa9")), strArg([]byte("\xc3\xa9\xc3\xa9"))}}, // %s bytes (fixed)
-		{F: h("%f %e %E"), Args: []fmtArg{n(math.Inf(1)), n(math.Inf(-1)), n(math.NaN())}}, // C15-11 (open)
-		{F: h("%+.0d|% .0d|%#.0o"), Args: []fmtArg{n(0), n(0), n(0)}},   // C15-12 (open)
+		{F: h("%f %e %E"), Args: []fmtArg{n(math.Inf(1)), n(math.Inf(-1)), n(math.NaN())}}, // C15-11 (fixed)
+		{F: h("%+.0d|% .0d|%#.0o"), Args: []fmtArg{n(0), n(0), n(0)}},   // C15-12 (fixed)
+		{F: h("%+x|% x|%+o|% X|%+5x|%+#x"), Args: []fmtArg{n(255), n(255), n(8), n(255), n(255), n(255)}}, // +/space on unsigned (fixed)
+		{F: h("%#.0x|%#5.0o|%+5.0d|%-+5.0d|"), Args: []fmtArg{n(0), n(0), n(0), n(0)}},
+		{F: h("%10f|%-10E|%+f|% e|%010f|%+010f"), Args: []fmtArg{n(math.Inf(1)), n(math.Inf(-1)), n(math.NaN()), n(math.Inf(1)), n(math.Inf(-1)), n(math.NaN())}},
+		{F: h("%.3d"), Args: []fmtArg{strArg([]byte("42"))}},               // numeric string to a numeric conversion (fixed)
+		{F: h("%+d|%05d|%x|%5.1f|%c|%e"), Args: []fmtArg{strArg([]byte("10")), strArg([]byte(" 7 ")), strArg([]byte("0x10")), strArg([]byte("3.75")), strArg([]byte("65")), strArg([]byte("1e2"))}},
+		{F: h("%d"), Args: []fmtArg{strArg([]byte("abc"))}},                // must raise
+		{F: h("%s|%d"), Args: []fmtArg{strArg([]byte("12")), strArg([]byte(""))}}, // must raise
 		{F: h("%5.3d|%-5.3d|%05.3d|%.0d|"), Args: []fmtArg{n(7), n(7), n(7), n(0)}},
 		{F: h("%.3f %.0f %.0f %.0f"), Args: []fmtArg{n(2.0005), n(0.5), n(1.5), n(2.5)}},
 		{F: h("%.20f|%e|%.0e|%#.0e|%#.0f"), Args: []fmtArg{n(0.1), n(math.Copysign(0, -1)), n(1), n(1), n(1)}},
@@ -423,11 +435,11 @@ func cDefinedFlags(d dirSpec) bool {
 	case 'd', 'i':
 		return !d.sharp
 	case 'x', 'X', 'o':
-		return !d.plus && !d.space
+		return true // '+' and ' ' are defined: they act on signed conversions only
 	case 'c':
-		return !d.sharp && !d.zero && !d.plus && !d.space && d.prec < 0
+		return !d.sharp && !d.zero && d.prec < 0
 	case 's':
-		return !d.sharp && !d.zero && !d.plus && !d.space
+		return !d.sharp && !d.zero
 	}
 	return true
 }
